@@ -51,7 +51,8 @@ def cases(draw):
             'collide': draw(st.integers(0, 3)) == 0,
             'json': draw(st.sampled_from([None, None, 'plain', 'after_failure',
                                           'after_failure_elsewhere'])),
-            'indent': draw(st.sampled_from([None, None, 2, 4]))}
+            'indent': draw(st.sampled_from([None, None, 2, 4])),
+            'stream': draw(st.booleans())}
 
 
 def snapshot(v, seen=None):
@@ -190,40 +191,64 @@ def check(case, ctx):
         ctx.finding('determinism', 'second_dump_differs',
                     'two dumps of the same object differ\n  %r\n  %r\n  %s' % (text, text2, desc()))
         return
+    texts = [('dumps', text)]
+    if case.get('stream'):
+        # the same through dump_function(...)(value, open text stream)
+        import io
+        buf = io.StringIO()
+        try:
+            yatiml.dump_function(*m.registered)(value, buf)
+        except Exception as e:
+            ctx.finding('dump', 'stream_raises:' + exc_signature(e),
+                        'dump to a stream raised %s: %s\n  %s' % (type(e).__name__, e, desc()))
+            return
+        texts.append(('dump to an open stream', buf.getvalue()))
+        ctx.count('yaml_stream_sink_checked')
+    for how, text in texts:
+        if not verify_yaml_text(ctx, how, text, want, collide, desc):
+            return
+    if collide:
+        return
+    if case.get('json'):
+        check_json_flavour(case, ctx, m, value, desc, item_shared)
+
+
+def verify_yaml_text(ctx, how, text, want, collide, desc):
     # (a) exactly one well-formed document
+    desc_ = desc
+    desc = lambda: 'written by: %s\n  %s' % (how, desc_())
     try:
         docs = list(yaml.compose_all(text, Loader=yaml.SafeLoader))
     except yaml.YAMLError as e:
         ctx.finding('wellformed', 'not_parseable',
                     'the dump is not well-formed YAML: %s\n  text: %r\n  %s' % (e, text, desc()))
-        return
+        return False
     if len(docs) != 1:
         ctx.finding('wellformed', 'document_count',
                     'the dump holds %d documents\n  text: %r\n  %s' % (len(docs), text, desc()))
-        return
+        return False
     # (b) no explicit tags
     for ev in yaml.parse(text, Loader=yaml.SafeLoader):
         if isinstance(ev, (yaml.ScalarEvent, yaml.SequenceStartEvent, yaml.MappingStartEvent)) \
                 and ev.tag is not None:
             ctx.finding('tagfree', 'explicit_tag:' + ('core' if ev.tag.startswith('tag:yaml.org') else 'custom'),
                         'the dump carries the explicit tag %s\n  text: %r\n  %s' % (ev.tag, text, desc()))
-            return
+            return False
     if collide:
-        return
+        return True
     # (c) content == projection, in order
     try:
         got = yaml.safe_load(text)
     except yaml.YAMLError as e:
         ctx.finding('content', 'plain_parser_fails',
                     'yaml.safe_load fails on the dump: %s\n  text: %r\n  %s' % (e, text, desc()))
-        return
+        return False
     if not proj.plain_eq(_norm(got), _norm(want)):
         ctx.finding('content', 'content_differs',
                     'a plain parser reads\n    %r\n  the projection is\n    %r\n  text: %r\n  %s'
                     % (got, want, text, desc()))
-        return
-    if case.get('json'):
-        check_json_flavour(case, ctx, m, value, desc, item_shared)
+        return False
+    return True
 
 
 def simple_for_json(p):
@@ -269,10 +294,26 @@ def check_json_flavour(case, ctx, m, value, desc, item_shared):
                     'dumps_json raised %s: %s\n  %s' % (type(e).__name__, e, desc()))
         return
     ctx.count('json_flavour_checked')
+    if case.get('stream'):
+        import io
+        buf = io.StringIO()
+        try:
+            yatiml.dump_json_function(*m.registered)(value, buf, indent=case.get('indent'))
+        except Exception as e:
+            ctx.finding('dump', 'json_stream_raises:' + exc_signature(e),
+                        'dump_json to a stream raised %s: %s\n  %s' % (type(e).__name__, e, desc()))
+            return
+        ctx.count('json_stream_sink_checked')
+        _verify_json_text(ctx, 'dump_json to an open stream', buf.getvalue(), want, desc)
     if text != text2:
         ctx.finding('determinism', 'json_second_dump_differs',
                     'two JSON dumps differ\n  %r\n  %r\n  %s' % (text, text2, desc()))
         return
+    _verify_json_text(ctx, 'dumps_json', text, want, desc)
+
+
+def _verify_json_text(ctx, how, text, want, desc_):
+    desc = lambda: 'written by: %s\n  %s' % (how, desc_())
     try:
         docs = list(yaml.compose_all(text, Loader=yaml.SafeLoader))
         tags = [ev.tag for ev in yaml.parse(text, Loader=yaml.SafeLoader)
